@@ -236,7 +236,8 @@ pub fn run(outdir: &Path, tier: &str, seed: u64, shards: usize, replay: Option<S
         let v: Value = serde_json::from_str(&std::fs::read_to_string(rp).unwrap()).unwrap();
         vec![serde_json::from_value(v["case"]["program"].clone()).unwrap()]
     } else {
-        let mut ps = crate::c04dir::directed();
+        // (the programs of known finding K14 — defaults of enum / input-object type — belong to C02's check)
+        let mut ps: Vec<_> = crate::c04dir::directed().into_iter().filter(|p| !p.tags.iter().any(|t| t == "directed-defaults-k14")).collect();
         let mut tries = 0;
         while ps.len() < nprog && tries < nprog * 6 {
             tries += 1;
